@@ -180,12 +180,22 @@ func nativeReplay(res *unitResult, scratch, bin string, info map[string]jobInfo)
 			bf := filepath.Join(scratch, fmt.Sprintf("viol_%s_%s.txt", res.unit.Name, idx))
 			line := fmt.Sprintf("%s %s %s %s\n", idx, ji.entry, intsStr(ji.args), vecStr(v.Vector))
 			os.WriteFile(bf, []byte(line), 0o644)
-			out, err := runNativeBatch(bin, dir, bf, 120*time.Second)
+			limit := 120 * time.Second
+			if v.Kind == "hang" {
+				limit = 40 * time.Second
+			}
+			out, err := runNativeBatch(bin, dir, bf, limit)
 			got := parseNative(out)
 			g, ok := got[idx]
 			v.PathDesc = line
 			reproduced := false
 			switch {
+			case v.Kind == "hang":
+				// reproduced only when the native build does not finish on this input within the limit either
+				if !ok && err != nil && strings.Contains(err.Error(), "timed out") {
+					reproduced = true
+					v.Msg += fmt.Sprintf(" [native: no result within %v on the same input]", limit)
+				}
 			case !ok:
 				// the process died (fatal error, os.Exit, timeout): for a panic-type violation that is a reproduction
 				if err != nil && v.Kind == "panic" {
@@ -239,7 +249,7 @@ var replayCounter = map[string]int{}
 
 func saveReplay(id string, u UnitSpec, v *Violation, ovPaths map[string]string, scratch string) {
 	replayCounter[id]++
-	dir := filepath.Join(verifDir, "replays", id, fmt.Sprintf("%03d", replayCounter[id]))
+	dir := filepath.Join(outDir, "replays", id, fmt.Sprintf("%03d", replayCounter[id]))
 	os.RemoveAll(dir)
 	os.MkdirAll(dir, 0o755)
 	// copy overlay sources
